@@ -253,7 +253,7 @@ class C12(PropCheck):
               'Open Scope Q_scope.\n')
     case_type = 'Welford.case'
     preds = (('Welford.c12_agree', 'agree'), ('Welford.c12_ok', 'ok'))
-    chunk = 120
+    chunk = 80
     rule = ('dist: 1-3 parents, scalar (1-d) and vector (2-d) summaries, batch 1..8, metrics euclidean(+w)/cityblock/'
             'chebyshev/minkowski(p=1..4,1.5,2.5,+w)/seuclidean(V)/callables, observed as 0-d/1-d/2-d; malformed: row or width '
             'mismatch, 2-row observed.  adaptive: scripts of add_data/update_distance/init_adaptation_round/generate, 1-3 '
@@ -439,6 +439,10 @@ class C12(PropCheck):
         main += list(self.gen_rejection(14 if q else 150))
         samp = list(self.gen_sampler(26 if q else 150))
         main += list(self.gen_degenerate(6 if q else 40))
+        # exact arithmetic on summaries in units 2^-100..2^100 / 53-bit integers is the expensive part of the Coq
+        # evaluation and the adaptive scripts are generated in one block: shuffle, so that the case files
+        # (consecutive chunks, evaluated in parallel) are balanced
+        self.rng.shuffle(main)
         # the sampler cases are the heaviest Coq terms: spread them evenly over the stream so that the case
         # files (consecutive chunks, evaluated in parallel) are balanced
         step = max(1, len(main) // (len(samp) + 1))
